@@ -132,7 +132,8 @@ class BlockWriteHandler(AbstractWriteHandler):
         # Perform basic end-of-branch check (to see if we need an end, return or hold).
         # we don't need to do that on jumps or fallthrough
         assert self.last_handler_in_block is not None
-        if self._next_vertex is None and not self.last_handler_in_block.ended_on_jump:
+        # (not inside a with(){} block: it holds exactly one statement, the block around it performs this check)
+        if self._next_vertex is None and not self.last_handler_in_block.ended_on_jump and not self._disallow_nested:
             if previous_vertex is None:
                 # ???
                 raise ValueError("Found end of branch, but no previous op...?")
